@@ -16,7 +16,8 @@
     code only on well-typed values (on others Python raises TypeError or
     behaves by duck typing). *)
 From Asn1V Require Import Base.Prelude Syntax.Asn1 Check.Location Check.WellTyped
-     Check.Constraints Check.Admits Check.ConstraintsProofs.
+     Check.Constraints Check.Admits Check.ConstraintsProofs
+     Check.Skeleton Check.Corrupt Check.PathProofs.
 
 (** Both directions: the checker passes iff every component is admitted. *)
 Theorem C11_constraints_iff :
@@ -44,6 +45,21 @@ Theorem C11_violation_is_constraints_error :
     if admits_top fuel env name v then None else Some EConstraints.
 Proof. exact check_top_class. Qed.
 Print Assumptions C11_violation_is_constraints_error.
+
+(** Path statement (used by C12): a value that is good except for ONE violated
+    constraint at path [p] is rejected with the dotted path Type.member... to
+    that component (repaired add_location; through references, list elements,
+    CHOICE alternatives and recursion).  [good]/[corrupt_at]: Check/PathProofs.v,
+    Check/Corrupt.v. *)
+Theorem C11_violation_path :
+  forall cd fuel env name t v p v' crossed,
+    lookup name env = Some t ->
+    good cd fuel env t v ->
+    corrupt_at env [name] t v p KConstraint v' crossed ->
+    outcome_class (check_top Repaired fuel env name v') = Some EConstraints /\
+    outcome_path (check_top Repaired fuel env name v') = dotted (name1 name ++ names_along p).
+Proof. exact check_top_fault_path. Qed.
+Print Assumptions C11_violation_path.
 
 (** Invocation: with check_constraints=True a value outside a constraint never
     reaches the encoder, whatever the codec does ... *)
